@@ -7,6 +7,7 @@
 #include <cstdlib>
 #include <cstring>
 #include <functional>
+#include <memory>
 #include <random>
 #include <sstream>
 #include <string>
@@ -194,6 +195,12 @@ template <class M, class P1, class P2> static void model_text_one(const char* mn
     printf("{\"e\":\"ModelText\",\"model\":\"%s\",\"num\":\"%s\",\"form\":\"%s\",\"type_ok\":%d,\"has_type_label\":%d,\"has_p1\":%d,\"has_p2_after_p1\":%d,\"stream_is_print\":%d,\"text\":\"%s\"}\n", mn, num, FN[f], (int)(base.GetType() == expect && m.GetType() == expect),
            (int)(forms[f].find(f == 0 ? abbr : SnakeCase(abbr)) != std::string::npos), (int)(a != std::string::npos), (int)(b != std::string::npos), (int)(os.str() == forms[0]), jesc(forms[f]).c_str()); }
 }
+// models owned and destroyed through the abstract base class, as the library's documentation does with std::unique_ptr<const ConstitutiveModel> (sanitized re-run: C20)
+template <class T> static void model_owned() { auto UV = Unit::DynamicViscosity::PascalSecond; int ok = 1;
+  { std::unique_ptr<const ConstitutiveModel> p = std::make_unique<Solid<T>>(ShearModulus<T>((T)2, PA), LameFirstModulus<T>((T)3, PA)); ok &= p->GetType() == ConstitutiveModel::Type::ElasticIsotropicSolid; }
+  { std::unique_ptr<ConstitutiveModel> p = std::make_unique<CFluid<T>>(DynamicViscosity<T>((T)2, UV), BulkDynamicViscosity<T>((T)3, UV)); ok &= p->GetType() == ConstitutiveModel::Type::CompressibleNewtonianFluid; }
+  { std::unique_ptr<const ConstitutiveModel> p(new IFluid<T>(DynamicViscosity<T>((T)2, UV))); ok &= p->GetType() == ConstitutiveModel::Type::IncompressibleNewtonianFluid; std::shared_ptr<const ConstitutiveModel> sp = std::move(p); ok &= !sp->Print().empty(); }
+  printf("{\"e\":\"ModelCopy\",\"model\":\"owned through the abstract base\",\"num\":\"%s\",\"ok\":%d}\n", NN<T>::c, ok); }
 template <class T> static void model_text() { auto UV = Unit::DynamicViscosity::PascalSecond;
   ShearModulus<T> mu((T)1.25L, PA); LameFirstModulus<T> lam((T)-0.001L * 3, PA); Solid<T> so(mu, lam); model_text_one("elastic", NN<T>::c, so, ConstitutiveModel::Type::ElasticIsotropicSolid, mu, &lam);
   DynamicViscosity<T> dv((T)12345.678L, UV); BulkDynamicViscosity<T> bv((T)0.1L, UV); CFluid<T> cf(dv, bv); model_text_one("compressible", NN<T>::c, cf, ConstitutiveModel::Type::CompressibleNewtonianFluid, dv, &bv);
@@ -205,7 +212,7 @@ template <class TM> static void exact_for_model(std::mt19937_64& g) {
 int main(int argc, char** argv) {
   std::string mode = argc > 1 ? argv[1] : "exact"; uint64_t seed = argc > 2 ? strtoull(argv[2], 0, 10) : 1; int n = argc > 3 ? atoi(argv[3]) : 1000; std::mt19937_64 g(seed);
   if (mode == "exact") { elastic_ctor_exact<float>(); elastic_ctor_exact<double>(); elastic_ctor_exact<long double>();
-    exact_for_model<float>(g); exact_for_model<double>(g); exact_for_model<long double>(g); one_arg<float>(); one_arg<double>(); one_arg<long double>(); model_text<float>(); model_text<double>(); model_text<long double>(); }
+    exact_for_model<float>(g); exact_for_model<double>(g); exact_for_model<long double>(g); one_arg<float>(); one_arg<double>(); one_arg<long double>(); model_text<float>(); model_text<double>(); model_text<long double>(); model_owned<float>(); model_owned<double>(); model_owned<long double>(); }
   else if (mode == "cmp") { model_cmp<float>(g, n); model_cmp<double>(g, n); model_cmp<long double>(g, n); }
   else { elastic_real<float>(seed, n); elastic_real<double>(seed, n); elastic_real<long double>(seed, n); maps_real_for<float>(seed, n); maps_real_for<double>(seed, n); maps_real_for<long double>(seed, n); }
   return 0;
